@@ -215,9 +215,11 @@ def gen_cli_program(rng, idx):
     """a main package whose files register themselves in init(); every file carries a constraint over the CLI tag vocabulary,
     the always-on tags and the environment tags. Returns files, user tag list."""
     vocab = CLI_TAGS + ["js", "ecmascript", "gc", "gopherjs", "netgo", "purego", "math_big_pure_go", "go1.20", "go1.1"]
-    tags = [t for t in CLI_TAGS if rng.random() < 0.3]
+    # release-tag look-alikes stay in the expression vocabulary but are never SUPPLIED: a satisfied `//go:build go1.N` line also
+    # sets the file's language version, and go/types rejects files that ask for a newer Go than the toolchain
+    tags = [t for t in CLI_TAGS if rng.random() < 0.3 and not t.startswith("go1.")]
     if not any("." in t for t in tags) and rng.random() < 0.7:
-        tags.append(rng.choice(["api.v2", "x.y.z", "go1.21"]))
+        tags.append(rng.choice(["api.v2", "x.y.z"]))
     rng.shuffle(tags)
     files = {"go.mod": "module c18cli\n\ngo 1.20\n",
              "main.go": "package main\n\nvar reg []string\n\nfunc main() {\n\tfor _, r := range reg {\n\t\tprintln(r)\n\t}\n\tprintln(\"end\")\n}\n"}
